@@ -11,7 +11,8 @@ def main(argv=None):
     res = world.run_functions(ck, ["server"], [S + ".readable", S + ".maintenance", S + ".handle_accept"], timeout=20, hooks_mod="contracts.server")
     world.report(ck, res)
     res2 = chanworld.run(ck, [("channel.HTTPChannel.writable", "IO"), ("channel.HTTPChannel.handle_write", "IO"), ("channel.HTTPChannel.received", "IO"),
-                              ("channel.HTTPChannel.service", "W"), ("channel.HTTPChannel.__init__", "IO")])
+                              ("channel.HTTPChannel.service", "W"), ("channel.HTTPChannel.__init__", "IO"),
+                              ("channel.HTTPChannel.handle_read", "IO"), ("channel.HTTPChannel._flush_some", "IOL"), ("channel.HTTPChannel._flush_some", "W")])
     world.report(ck, res2, select=lambda n: any(p in n for p in ("C18-", "coverage:", "R3:io-only-appends", "R3:worker-never-appends", "R1[req]:requests-")))
     ck.trusted.extend(["the I/O loop evaluates readable() of every map entry before each blocking call and delivers at most one read event per descriptor per turn (structure of wasyncore.poll/poll2: read, not proved here)",
                        "`requests != []` from received()'s append until service()'s pop (R3 stability: only the I/O thread appends, only the worker pops; both are obligations of this run)",
